@@ -164,6 +164,7 @@ class Scheduler:
         self._code_cache = {}
         self._driver = None
         self.thread_excs = []       # (task name, exception type name)
+        self.atomic_tid = None      # a task that is inside an operation modelled as indivisible: no pre-emption points
 
     # -- lifecycle
     def __enter__(self):
@@ -220,6 +221,8 @@ class Scheduler:
         me = self.current
         if me is None or me.thread is not threading.current_thread():
             return  # a thread the simulator does not own: never scheduled here
+        if me.tid == self.atomic_tid:
+            return  # inside an indivisible operation (not counted as a point either)
         k = self.points
         self.points += 1
         if k >= self.max_points:
